@@ -153,8 +153,10 @@ package sftp
 //@ func (*clientConn).sendPacket
 //@   property C20, C03, C04
 //@   results typ, data, err
-//@   requires ctx != nil && p != nil
-//@   modifies bytes, mapof c.inflight
+//@   requires c != nil && c.inflight != nil && c.WriteCloser != nil && ctx != nil && p != nil
+//@   requires ghost.idFresh && p.id() == ghost.lastID
+//@   ensures !ghost.idFresh
+//@   modifies bytes, mapof c.inflight, ghost.idFresh
 //@   channel global:type:sftp.result invariant m.err == nil ==> len(m.data) >= 4
 //@   ensures err == nil ==> len(data) >= 4
 
@@ -208,11 +210,21 @@ package sftp
 
 //@ ghost var readStatusOK bool
 
-//@ pred clientOK(c *Client) = c != nil && c.maxPacket >= 1 && c.maxPacket <= 0x7fffffff && c.maxConcurrentRequests >= 1
+//@ pred clientOK(c *Client) = c != nil && c.inflight != nil && c.WriteCloser != nil && c.maxPacket >= 1 && c.maxPacket <= 0x7fffffff && c.maxConcurrentRequests >= 1
 //@ pred fileOK(f *File) = f != nil && f.c != nil && clientOK(f.c)
+
+//@ ghost var idFresh bool
+//@ ghost var lastID uint32
 
 //@ func (*Client).nextID
 //@   property C03
+//@   requires c != nil
+//@   update after call atomic.AddUint32#1: ghost.idFresh = true
+//@   update after call atomic.AddUint32#1: ghost.lastID = ret
+//@   ensures ghost.idFresh && ghost.lastID == result
+//@   modifies c.nextid, ghost.idFresh, ghost.lastID
+// (linear token: every request put on the wire carries an id obtained from nextID that no earlier request used;
+//  clientConn.sendPacket / dispatchRequest consume the token)
 
 //@ func unimplementedPacketErr
 //@   property C20
@@ -281,66 +293,85 @@ package sftp
 // ---------------------------------------------------------------------------
 // client: reply decoding of the single-request operations (C20: no reply can crash the client)
 
-//@ pred connOK(c *Client) = c != nil && c.ext != nil
+//@ pred connOK(c *Client) = c != nil && c.inflight != nil && c.WriteCloser != nil
 
 //@ func (*Client).ReadDirContext
-//@   property C20, C16
+//@   property C20, C16, C03
+//@   requires connOK(c)
 //@   requires ctx != nil
 
 //@ func (*Client).opendir
-//@   property C20
+//@   property C20, C03
+//@   requires connOK(c)
 //@   requires ctx != nil
 
 //@ func (*Client).Lstat
-//@   property C20
+//@   property C20, C03
+//@   requires connOK(c)
 
 //@ func (*Client).ReadLink
-//@   property C20
+//@   property C20, C03
+//@   requires connOK(c)
 
 //@ func (*Client).Link
-//@   property C20
+//@   property C20, C03
+//@   requires connOK(c)
 
 //@ func (*Client).Symlink
-//@   property C20
+//@   property C20, C03
+//@   requires connOK(c)
 
 //@ func (*Client).fsetstat
-//@   property C20
+//@   property C20, C03
+//@   requires connOK(c)
 
 //@ func (*Client).setstat
-//@   property C20
+//@   property C20, C03
+//@   requires connOK(c)
 
 //@ func (*Client).open
-//@   property C20
+//@   property C20, C03
+//@   requires connOK(c)
 
 //@ func (*Client).close
-//@   property C20
+//@   property C20, C03
+//@   requires connOK(c)
 
 //@ func (*Client).stat
-//@   property C20
+//@   property C20, C03
+//@   requires connOK(c)
 
 //@ func (*Client).fstat
-//@   property C20
+//@   property C20, C03
+//@   requires connOK(c)
 
 //@ func (*Client).StatVFS
-//@   property C20
+//@   property C20, C03
+//@   requires connOK(c)
 
 //@ func (*Client).removeFile
-//@   property C20
+//@   property C20, C03
+//@   requires connOK(c)
 
 //@ func (*Client).RemoveDirectory
-//@   property C20
+//@   property C20, C03
+//@   requires connOK(c)
 
 //@ func (*Client).Rename
-//@   property C20
+//@   property C20, C03
+//@   requires connOK(c)
 
 //@ func (*Client).PosixRename
-//@   property C20
+//@   property C20, C03
+//@   requires connOK(c)
 
 //@ func (*Client).RealPath
-//@   property C20
+//@   property C20, C03
+//@   requires connOK(c)
 
 //@ func (*Client).Mkdir
-//@   property C20
+//@   property C20, C03
+//@   requires connOK(c)
 
 //@ ghost var hsVersion uint32
 //@ ghost var hsType uint32
@@ -1218,3 +1249,42 @@ package sftp
 //@   assert before call (*Request).close#1: ghost.notified && !haskey(rs.openRequests, handle) && arg0 == req
 //@   update after call (*Request).close#1: ghost.notified = false
 //@   ensures ghost.workersJoined
+
+// ---------------------------------------------------------------------------
+// client connection internals (conn.go): C20 channel invariant at every send, C03 routing, C04 safety core
+
+//@ pred ccOK(c *clientConn) = c != nil && c.inflight != nil && c.Reader != nil && c.WriteCloser != nil && (c.alloc == nil || c.alloc.used != nil)
+
+//@ func (*clientConn).recv
+//@   property C20, C03, C04
+//@   requires ccOK(c)
+//@   loop 1 invariant ccOK(c)
+//@   ensures result != nil
+
+//@ func (*clientConn).putChannel
+//@   property C20, C03, C04
+//@   requires c != nil && c.inflight != nil && ch != nil
+//@   ensures c.inflight != nil
+//@   ensures result ==> haskey(c.inflight, sid) && c.inflight[sid] == ch
+
+//@ func (*clientConn).getChannel
+//@   property C20, C03, C04
+//@   results ch, ok
+//@   requires c != nil && c.inflight != nil
+//@   ensures c.inflight != nil
+//@   ensures ok <==> old(haskey(c.inflight, sid))
+//@   ensures ok ==> ch == old(c.inflight[sid])
+//@   ensures !haskey(c.inflight, sid)
+
+//@ func (*clientConn).dispatchRequest
+//@   property C20, C03, C04
+//@   requires c != nil && c.inflight != nil && c.WriteCloser != nil && ch != nil && p != nil
+//@   requires ghost.idFresh && p.id() == ghost.lastID
+//@   ensures !ghost.idFresh
+//@   assert before call (*clientConn).putChannel#1: arg2 == p.id() && arg1 == ch
+//@   update before call (*clientConn).putChannel#1: ghost.idFresh = false
+//@   modifies bytes, mapof c.inflight, ghost.idFresh
+
+//@ func (*clientConn).broadcastErr
+//@   property C20, C04
+//@   requires c != nil && c.inflight != nil
